@@ -350,7 +350,13 @@ class Builtins(BuiltinCalls, ContainerCalls):
         if strict and "defaultdict" in o.flags:
             # collections.defaultdict: a missing key yields factory() (and stores it; the store is subsumed by the summary)
             fac = self.I.default_factories.get(p.loc)
+            ck0 = _ckey(key)
+            if o.fixed is not None and ck0 is not None and not env and any(k == ck0 for k, _ in o.fixed):
+                return next(v for k, v in o.fixed if k == ck0)  # an explicit dictionary that has the key: no default involved
             dv = self.I.call_value(fac, [], {}, node, state) if fac is not None and not isinstance(fac, NoneV) else None
+            if dv is not None and not state.bottom and o.fixed is not None and ck0 is not None and not env:
+                self.dict_set(state, p, key, dv, node)  # d[k] on a missing key stores factory() under k
+                return dv
             if dv is not None and not state.bottom:
                 cur = self.dict_get_plain(state, p, key, node)
                 return dv if cur is None else join_val(cur, dv)
